@@ -549,6 +549,17 @@ func checkC09(v *tunView, m *connModel) {
 					excused = true
 				}
 			}
+			// ... and not at all when an answer with status OK was read while the exchange - the only
+			// one in progress - was waiting for it. (With a heartbeat interval below T+R exchanges
+			// overlap and an answer may go to the other one; those configurations are left alone.)
+			if !excused && c.H >= c.T+c.R+eps && ep.End.T-t0 >= c.T-eps {
+				for _, y := range v.rx {
+					if y.F.OK && y.F.Svc == svcConnStateRes && y.F.Channel == ep.Channel && y.F.Status == 0 && y.At.T > t0+eps && y.At.T < t0+c.T-c.R-eps && y.At.Seq < ep.End.Seq && y.At.T > ep.StallUntil+eps {
+						e.Violate("C09", "heartbeat-failed-although-answered", "epoch %d (channel %d): the heartbeat exchange begun at %v was answered with status OK at %v, well inside the response timeout %v, yet the client reconnected at %v", k, ep.Channel, t0, y.At.T, c.T, ep.End.T)
+						break
+					}
+				}
+			}
 			if !excused && ep.End.T-t0 < c.T-eps {
 				e.Violate("C09", "heartbeat-failed-early", "epoch %d (channel %d): the heartbeat exchange begun at %v was given up at %v (connect request), %v later; the response timeout is %v and no error status was received", k, ep.Channel, t0, ep.End.T, ep.End.T-t0, c.T)
 			} else if !excused {
